@@ -80,7 +80,7 @@ def c06_1(c: Ctx) -> None:
         c.fail(acc, f'_get_global_lock returns {sorted(gnames)}', 'the lock accessor does not return a single module-level lock object')
     for u, _ in sites:
         for w in lock_withs(c, u):
-            ce = w.items[0].context_expr
+            ce = q.deref(u, w.items[0].context_expr)  # (the lock may be looked up into a local first, e.g. to log that it is contended)
             if isinstance(ce, ast.Call) and isinstance(ce.func, ast.Name) and ce.func.id == acc.name:
                 c.ok(where(u, w), f'`async with {U(ce)}` uses the singleton accessor')
             else:
